@@ -379,7 +379,7 @@ theorem le_witness_parts (U : Problem) (ps : List Problem) (perm : List Nat) (la
   simp only [Bool.and_eq_true, decide_eq_true_eq] at h
   obtain ⟨⟨⟨⟨⟨⟨⟨⟨⟨h1, h2⟩, h3⟩, _⟩, h5⟩, h6⟩, h7⟩, h8⟩, h9⟩, h10⟩ := h
   exact ⟨wfIdx_spec U h1, fun p hp => wfIdx_spec p (List.all_eq_true.mp h2 p hp), isPermOf_spec perm U.n h3,
-    ⟨h5, h6, h7, h8, fun x hx => rows_implied _ _ lams h9 h10 x hx⟩⟩
+    ⟨h5, ⟨h6, h7, h8, fun x hx => rows_implied _ _ lams h9 h10 x hx⟩⟩⟩
 
 /-- **Every split-feasible point is unsplit-feasible.**  Under a true one-sided witness a feasible point of the
     block sum of the interval problems, transported along the matching of the variables, is a feasible point of the
@@ -394,8 +394,8 @@ theorem split_le_witness_feasible (U : Problem) (ps : List Problem) (perm : List
   have hlu : (U.renameAlong perm).u.length = (U.renameAlong perm).l.length := by
     simp [Problem.renameAlong]
   refine ⟨fun hx => ?_, fun hx => ?_, ?_⟩
-  · exact (renameAlong_feasible U hp hw x).mp (hs.feasible hlu x hx)
-  · exact (renameAlong_relaxed U hp hw.l x).mp (hs.relaxed hlu x hx)
+  · exact (renameAlong_feasible U hp hw x).mp (hs.feas.feasible hlu x hx)
+  · exact (renameAlong_relaxed U hp hw.l x).mp (hs.feas.relaxed hlu x hx)
   · rw [← hs.value x, renameAlong_value U hp x]
 
 /-- **Split never exceeds unsplit** (no existence of optima assumed): under a true one-sided witness every upper
@@ -500,6 +500,105 @@ theorem split_witness_implies_le (U : Problem) (ps : List Problem) (perm : List 
   obtain ⟨h1, h2, h3⟩ := split_witness_feasible U ps perm h x
   exact ⟨h1.mp, h2.mp, h3⟩
 
+/-! ### objectives that differ by a combination of rows (`cost_store`)
+
+`splitLeWitnessC` accepts, instead of equal cost vectors, a certificate (`lamC`) that `(c_B − c_A)·x ≥ 0` follows
+from the rows of the block sum: then a split-feasible point is worth at least as much in the unsplit problem as in
+the split problem, and "split never exceeds unsplit" still follows. -/
+
+theorem le_witnessC_parts (U : Problem) (ps : List Problem) (perm : List Nat) (lams : List (List Rat))
+    (lamC : List Rat) (h : splitLeWitnessC U ps perm lams lamC = true) :
+    WfIdx U ∧ (∀ p ∈ ps, WfIdx p) ∧ IsPerm perm U.n ∧ LeFeas (U.renameAlong perm) (blockSum ps) ∧
+    costCert (U.renameAlong perm).c (blockSum ps).c (blockSum ps).rows lamC = true := by
+  unfold splitLeWitnessC at h
+  simp only [Bool.and_eq_true, decide_eq_true_eq] at h
+  obtain ⟨⟨⟨⟨⟨⟨⟨⟨⟨h1, h2⟩, h3⟩, _⟩, h5⟩, h6⟩, h7⟩, h8⟩, h9⟩, h10⟩ := h
+  exact ⟨wfIdx_spec U h1, fun p hp => wfIdx_spec p (List.all_eq_true.mp h2 p hp), isPermOf_spec perm U.n h3,
+    ⟨h6, h7, h8, fun x hx => rows_implied _ _ lams h9 h10 x hx⟩, h5⟩
+
+/-- a one-sided witness with equal objectives is one with a certified objective, whatever `lamC` -/
+theorem splitLeWitness_imp_C (U : Problem) (ps : List Problem) (perm : List Nat) (lams : List (List Rat))
+    (lamC : List Rat) (h : splitLeWitness U ps perm lams = true) : splitLeWitnessC U ps perm lams lamC = true := by
+  unfold splitLeWitness at h
+  unfold splitLeWitnessC
+  simp only [Bool.and_eq_true, decide_eq_true_eq] at h ⊢
+  obtain ⟨⟨⟨⟨⟨⟨⟨⟨⟨h1, h2⟩, h3⟩, h4⟩, h5⟩, h6⟩, h7⟩, h8⟩, h9⟩, h10⟩ := h
+  refine ⟨⟨⟨⟨⟨⟨⟨⟨⟨h1, h2⟩, h3⟩, h4⟩, ?_⟩, h6⟩, h7⟩, h8⟩, h9⟩, h10⟩
+  unfold costCert
+  rw [Bool.or_eq_true]
+  exact Or.inl (decide_eq_true h5)
+
+/-- **Every split-feasible point is unsplit-feasible and worth at least as much there** (certified objective). -/
+theorem split_le_witnessC_feasible (U : Problem) (ps : List Problem) (perm : List Nat) (lams : List (List Rat))
+    (lamC : List Rat) (h : splitLeWitnessC U ps perm lams lamC = true) (x : Vec) :
+    ((blockSum ps).Feasible x → U.Feasible (transportAlong perm x)) ∧
+    ((blockSum ps).FeasibleRelaxed x → U.FeasibleRelaxed (transportAlong perm x)) ∧
+    ((blockSum ps).FeasibleRelaxed x → (blockSum ps).value x ≤ U.value (transportAlong perm x)) := by
+  obtain ⟨hw, _, hp, hs, hc⟩ := le_witnessC_parts U ps perm lams lamC h
+  have hlu : (U.renameAlong perm).u.length = (U.renameAlong perm).l.length := by
+    simp [Problem.renameAlong]
+  refine ⟨fun hx => ?_, fun hx => ?_, fun hx => ?_⟩
+  · exact (renameAlong_feasible U hp hw x).mp (hs.feasible hlu x hx)
+  · exact (renameAlong_relaxed U hp hw.l x).mp (hs.relaxed hlu x hx)
+  · rw [← renameAlong_value U hp x]
+    exact costCert_sound _ _ _ lamC hc x hx.2
+
+/-- **Split never exceeds unsplit**, certified objective (no existence of optima assumed). -/
+theorem split_le_unsplitC (U : Problem) (ps : List Problem) (perm : List Nat) (lams : List (List Rat))
+    (lamC : List Rat) (h : splitLeWitnessC U ps perm lams lamC = true) (B : Rat)
+    (hU : ∀ y, U.Feasible y → U.value y ≤ B) :
+    ∀ x, (blockSum ps).Feasible x → (blockSum ps).value x ≤ B := by
+  intro x hx
+  obtain ⟨h1, _, h3⟩ := split_le_witnessC_feasible U ps perm lams lamC h x
+  exact Rat.le_trans (h3 hx.1) (hU _ (h1 hx))
+
+theorem split_le_unsplitC_relaxed (U : Problem) (ps : List Problem) (perm : List Nat) (lams : List (List Rat))
+    (lamC : List Rat) (h : splitLeWitnessC U ps perm lams lamC = true) (B : Rat)
+    (hU : ∀ y, U.FeasibleRelaxed y → U.value y ≤ B) :
+    ∀ x, (blockSum ps).FeasibleRelaxed x → (blockSum ps).value x ≤ B := by
+  intro x hx
+  obtain ⟨_, h2, h3⟩ := split_le_witnessC_feasible U ps perm lams lamC h x
+  exact Rat.le_trans (h3 hx) (hU _ (h2 hx))
+
+/-- the concatenated interval solutions, transported, are an unsplit-feasible dispatch worth AT LEAST the sum of the
+    interval values there, and that sum is below every upper bound of the unsplit value (LP case, certified
+    objective) -/
+theorem split_solution_le_unsplitC (U : Problem) (ps : List Problem) (perm : List Nat) (lams : List (List Rat))
+    (lamC : List Rat) (h : splitLeWitnessC U ps perm lams lamC = true) (xs : List (List Rat))
+    (hlen : xs.length = ps.length) (hn : ∀ i, (h : i < ps.length) → (xs.getD i []).length = (ps[i]).n)
+    (hfeas : ∀ i, (h : i < ps.length) → (ps[i]).FeasibleRelaxed (vecOfList (xs.getD i []))) :
+    U.FeasibleRelaxed (transportAlong perm (concatVec xs)) ∧
+    ((List.range ps.length).map fun i => (ps.getD i default).value (vecOfList (xs.getD i []))).sum ≤
+      U.value (transportAlong perm (concatVec xs)) ∧
+    ∀ B, (∀ y, U.FeasibleRelaxed y → U.value y ≤ B) →
+      ((List.range ps.length).map fun i => (ps.getD i default).value (vecOfList (xs.getD i []))).sum ≤ B := by
+  obtain ⟨_, hwp, _, _, _⟩ := le_witnessC_parts U ps perm lams lamC h
+  have hxB := concat_relaxed ps hwp xs hlen hn hfeas
+  obtain ⟨_, h2, h3⟩ := split_le_witnessC_feasible U ps perm lams lamC h (concatVec xs)
+  have hv := concat_value ps xs hlen hn
+  refine ⟨h2 hxB, by rw [← hv]; exact h3 hxB, fun B hB => ?_⟩
+  rw [← hv]
+  exact split_le_unsplitC_relaxed U ps perm lams lamC h B hB _ hxB
+
+/-- the same with boolean variables -/
+theorem split_solution_le_unsplitC_bool (U : Problem) (ps : List Problem) (perm : List Nat)
+    (lams : List (List Rat)) (lamC : List Rat) (h : splitLeWitnessC U ps perm lams lamC = true)
+    (xs : List (List Rat)) (hlen : xs.length = ps.length)
+    (hn : ∀ i, (h : i < ps.length) → (xs.getD i []).length = (ps[i]).n)
+    (hfeas : ∀ i, (h : i < ps.length) → (ps[i]).Feasible (vecOfList (xs.getD i []))) :
+    U.Feasible (transportAlong perm (concatVec xs)) ∧
+    ((List.range ps.length).map fun i => (ps.getD i default).value (vecOfList (xs.getD i []))).sum ≤
+      U.value (transportAlong perm (concatVec xs)) ∧
+    ∀ B, (∀ y, U.Feasible y → U.value y ≤ B) →
+      ((List.range ps.length).map fun i => (ps.getD i default).value (vecOfList (xs.getD i []))).sum ≤ B := by
+  obtain ⟨_, hwp, _, _, _⟩ := le_witnessC_parts U ps perm lams lamC h
+  have hxB := concat_feasible ps hwp xs hlen hn hfeas
+  obtain ⟨h1, _, h3⟩ := split_le_witnessC_feasible U ps perm lams lamC h (concatVec xs)
+  have hv := concat_value ps xs hlen hn
+  refine ⟨h1 hxB, by rw [← hv]; exact h3 hxB.1, fun B hB => ?_⟩
+  rw [← hv]
+  exact split_le_unsplitC U ps perm lams lamC h B hB _ hxB
+
 /-! ### non-vacuity: a storage with start level = end level over two intervals
 
 A market `m` (prices 1, 3, 1, 3) and a storage `s` (size 4, start level = end level = 1, dispatch in `[-1, 1]`,
@@ -582,6 +681,22 @@ example : exSU.FeasibleRelaxed (transportAlong exSPerm (concatVec exSXs)) ∧
       (exSPs.getD i default).value (vecOfList (exSXs.getD i []))).sum = 4 := by decide +kernel
   rw [hs] at g2 g3
   exact ⟨g1, g2, g3⟩
+
+/-- with `cost_store = 1` the unsplit cost of charging at step `τ` counts the `4 - τ` later steps of the horizon, the
+    interval cost only those of the interval: the cost vectors differ, but `(c_B − c_A)·x = 2 (s0 + s1)` is twice the
+    first interval's end-level row — certified with the multiplier `-2` on that (`U`) row -/
+private def exSUc : Problem := { exSU with c := [1, 3, 1, 3, -4, -3, -2, -1] }
+private def exSPc (t0 : Nat) : Problem := { exSPe 1 t0 with c := [1, 3, -2, -1] }
+private def exSLamC : List Rat := (List.range 12).map fun i => if i = 1 then -2 else 0
+
+example : splitLeWitness exSUc [exSPc 0, exSPc 2] exSPerm exSLams = false := by decide +kernel
+example : splitLeWitnessC exSUc [exSPc 0, exSPc 2] exSPerm exSLams exSLamC = true := by decide +kernel
+/-- the sign matters: the `L` twin of that row (it bounds the other direction) is rejected with the same multiplier,
+    and so is `+2` on the `U` row (wrong coefficients) -/
+example : splitLeWitnessC exSUc [exSPc 0, exSPc 2] exSPerm exSLams
+      ((List.range 12).map fun i => if i = 3 then -2 else 0) = false ∧
+    splitLeWitnessC exSUc [exSPc 0, exSPc 2] exSPerm exSLams
+      ((List.range 12).map fun i => if i = 1 then 2 else 0) = false := by decide +kernel
 
 /-- **start level ≠ end level** (start 1, end 2): every interval raises the level by 1, the concatenation ends at
     level 3, not 2 — NO multipliers can make the one-sided witness true (by the theorem: a split-feasible point
